@@ -126,7 +126,9 @@ def gen_visit(cls: str):
                 b = M.fresh("hint", M.B)
                 g = z3.Implies(b == S.window_ok(E, 1, M.llen(E) - 2, r, 0), g)
             return g
-        c.ensures("conforms", goal, ("C01",))
+        # C04's `every value the result generates carries the substituted data` = pins (accepted => pinned, proved on the
+        # substitution side) + this clause, so a change here fails C04 as well
+        c.ensures("conforms", goal, ("C01", "C04"))
         if cls == "FloatSchema":
             nonfin = lambda t: z3.And(t != M.NilV, z3.Not(M.is_FloatV(t)))
             c.known_region("C01-float-nonfinite-bound", "call:Random.random_float:requires",
@@ -154,7 +156,7 @@ def gen_visit(cls: str):
 for _m, _cls in [("visit_none", "NoneSchema"), ("visit_bool", "BoolSchema"), ("visit_int", "IntSchema"),
                  ("visit_float", "FloatSchema"), ("visit_str", "StrSchema"), ("visit_bytes", "BytesSchema"),
                  ("visit_datetime", "DateTimeSchema"), ("visit_uuid4", "UUID4Schema"), ("visit_date", "DateSchema")]:
-    contract(GEN, f"Generator.{_m}", props=("C01", "C17", "C07"), group="generator")(gen_visit(_cls))
+    contract(GEN, f"Generator.{_m}", props=("C01", "C17", "C07", "C04"), group="generator")(gen_visit(_cls))
 
 
 transparent("d42/generation/_regex_generator.py", "RegexGenerator.__init__")
@@ -176,7 +178,7 @@ def _accept_generator(c):
 
 for _m, _cls in [("visit_list", "ListSchema"), ("visit_dict", "DictSchema"), ("visit_any", "AnySchema"),
                  ("visit_type_alias", "TypeAliasSchema")]:
-    contract(GEN, f"Generator.{_m}", props=("C01", "C17", "C07", "C16"), group="generator")(gen_visit(_cls))
+    contract(GEN, f"Generator.{_m}", props=("C01", "C17", "C07", "C16", "C04"), group="generator")(gen_visit(_cls))
 
 
 @invariant(GEN, "Generator.visit_list", loop=0)
